@@ -891,6 +891,10 @@ func init() {
 			if err != nil {
 				return
 			}
+			if s.R.Chance(1, 3) {
+				// another producer loaded and saved the file in between: parts beside the main part come back in another legal spelling
+				b, _ = gen.RespellPackage(s.R, b, "word/numbering.xml", "word/footnotes.xml", "word/endnotes.xml", "word/styles.xml", "word/settings.xml")
+			}
 			d2, err := document.OpenFromMemory(io.NopCloser(bytes.NewReader(b)))
 			if err != nil || d2 == nil || d2.Body == nil {
 				return
